@@ -10,8 +10,10 @@ TRUSTED = [
     "bn_smb_leg = Legendre symbol for every a and odd prime b",
     "inside the Mxp model the Montgomery reduction bn_mod_monty_comba and the conversions are taken at value level (x*R^-1 mod m for "
     "0 <= x < m*R, which holds at every call of the loops); their digit-level correctness is the Mod family's / C02's subject",
-    "bn_mxp_sim (= bn_mxp_sim_few unrolled at n = 2) is class A as well (mxpSim, theorem mxp_sim_exact: signs of the exponents are ignored, "
-    "no zero-exponent exit, even modulus -> error); class C in the Mxp family: bn_mxp_sim_few for n != 2 and bn_mxp_sim_lot (not presented)",
+    "bn_mxp_sim (= bn_mxp_sim_few at n = 2) and bn_mxp_sim_few for every n are class A as well (mxpSim / mxpSimFew, theorems mxp_sim_exact, mxp_sim_few_exact: "
+    "table built block by block with unbuilt blocks for zero exponents, one squaring + one table multiplication per bit of the longest exponent; the signs of the exponents are "
+    "ignored — known finding C09-ext-mxp-1 —, no zero-exponent exit, even modulus -> error, n = 0 leaves the result untouched, n > 8 -> error); class C in the Mxp family: "
+    "bn_mxp_sim_lot (not presented)",
 ]
 
 # odd primes for Legendre / CRT lines (all below 2^256 so that they fit RLC_BN_DIGS of both configurations)
